@@ -352,6 +352,12 @@ theorem parseTaxa_prog (f : Facts) (hf : f.commentStopsAtEof = true) : ∀ (fuel
           intro r' hr'
           simp only [id] at hr'
           exact prog_mono _ (ih _ _ _ (by omega)) (by omega)
+      · split
+        · exact prog_mono _ (ih _ _ _ (by omega)) (by omega)
+        · apply prog_bind_step (p := id) _ _ _ _ (skipCommand_prog _ _ (by omega))
+          intro r' hr'
+          simp only [id] at hr'
+          exact prog_mono _ (ih _ _ _ (by omega)) (by omega)
       · apply prog_bind_step (p := id) _ _ _ _ (skipCommand_prog _ _ (by omega))
         intro r' hr'
         simp only [id] at hr'
@@ -395,6 +401,12 @@ theorem parseData_prog (f : Facts) (hf : f.commentStopsAtEof = true) : ∀ (fuel
         exact prog_mono _ (ih _ _ (by omega)) (by omega)
       · split
         · exact prog_error
+        · apply prog_bind_step (p := id) _ _ _ _ (skipCommand_prog _ _ (by omega))
+          intro r' hr'
+          simp only [id] at hr'
+          exact prog_mono _ (ih _ _ (by omega)) (by omega)
+      · split
+        · exact prog_mono _ (ih _ _ (by omega)) (by omega)
         · apply prog_bind_step (p := id) _ _ _ _ (skipCommand_prog _ _ (by omega))
           intro r' hr'
           simp only [id] at hr'
